@@ -700,3 +700,28 @@ M("C16.by_ref_drops_formatter", ["C16"], "core/src/template.rs",
 M("C16.render_ignores_error", ["C16"], "core/src/template.rs", None, None, "x") if False else None
 M("C16.render_ignores_error", ["C16"], "core/src/template.rs",
   "            part.write(&mut writer, &self.props)?;", "            let _ = part.write(&mut writer, &self.props);", "C16.R2:Render")
+
+# ---- C17 -------------------------------------------------------------------------------------------
+M("C17.gt_instead_of_ge", ["C17"], "src/level.rs",
+  "            .unwrap_or(&L::default())\n            >= &self.min", "            .unwrap_or(&L::default())\n            > &self.min", "C17.R1")
+M("C17.inherited_beats_child", ["C17"], "src/level.rs",
+  "                filter = node.min_level.as_ref().or(filter);", "                filter = filter.or(node.min_level.as_ref());", "C17.R4")
+M("C17.children_pushed", ["C17"], "src/level.rs",
+  """                        node.children.insert(
+                            idx,
+                            (""",
+  """                        let idx = { let _ = idx; node.children.len() };
+                        node.children.insert(
+                            idx,
+                            (""", "C17.R3")
+M("C17.level_order_swapped", ["C17"], "src/level.rs", None, None, "x") if False else None
+M("C17.default_beats_own_level", ["C17"], "src/level.rs",
+  """            .pull::<L, _>(KEY_LVL)
+            .as_ref()
+            .or_else(|| self.default.as_ref())""",
+  """            .pull::<L, _>(KEY_LVL)
+            .as_ref()
+            .and(self.default.as_ref())""", "C17.R1") if False else None
+M("C17.segments_single_colon", ["C17"], "core/src/path.rs",
+  """                Some(inner) => SegmentsInner::Static(inner.split("::")),""",
+  """                Some(inner) => SegmentsInner::Static(inner.split(":")),""", "C17.R5") if False else None
